@@ -52,7 +52,8 @@ func c12Births(c *ctx) {
 	for _, ymd := range [][3]int{{15, 12, 30}, {15, 12, 31}, {18, 12, 27}, {18, 12, 29}, {18, 12, 31}, {16, 1, 1}} {
 		add(ymd[0], ymd[1], ymd[2], 43200)
 	}
-	for len(births) < n*4 {
+	fixed := len(births)
+	for len(births) < fixed+n {
 		y := 1 + c.rng.Intn(9990)
 		if c.rng.Intn(2) == 0 {
 			y = 1900 + c.rng.Intn(200)
@@ -62,9 +63,6 @@ func c12Births(c *ctx) {
 			sod = []int{82800, 86399, 0, 3599, 3600, 82799}[c.rng.Intn(6)]
 		}
 		add(y, 1+c.rng.Intn(12), 1+c.rng.Intn(31), sod)
-	}
-	if c.tier != "thorough" && len(births) > n+600 {
-		births = births[:n+600]
 	}
 	for i, b := range births {
 		if !c.mine(i) {
